@@ -346,6 +346,11 @@ def doubleClass (t : Str) : DClass :=
   else if t == "-INF".toList then .ninf
   else .num
 
+/-- F&O 19.1.2.? integer → double goes through the lexical form; XSD 1.1 §3.3.5 (double lexical mapping, rounding to nearest
+with ties to even): an integer of magnitude ≥ 2^1024 − 2^970 denotes positive or negative infinity *according to its sign* -/
+def integerDoubleClass (v : Int) : DClass :=
+  if v ≥ 2 ^ 1024 - 2 ^ 970 then .pinf else if v ≤ -(2 ^ 1024 - 2 ^ 970) then .ninf else .num
+
 /-- F&O 19.1 – 19.3 for this corner; `none` = a dynamic error (FORG0001 / FOCA0002) -/
 def castSpec (a : SAtom) (t : SType) : Option SVal :=
   match t with
@@ -383,6 +388,7 @@ def castSpec (a : SAtom) (t : SType) : Option SVal :=
     match a with
     | .str s | .untyped s => let c := wsCollapse s; if doubleLex xsd11 c then some (.dbl (doubleClass c)) else none
     | .dbl x _ _ => some (.dbl (match x with | .nan => .nan | .pinf => .pinf | .ninf => .ninf | .fin _ _ _ => .num))
+    | .int v => some (.dbl (integerDoubleClass v))
     | _ => some (.dbl .num)
 
 /-! ## timezones: XSD 1.1 Part 2, 3.3.7.2 (dateTime lexical mapping), productions [63] timezoneFrag
